@@ -81,6 +81,9 @@ func init() {
 			if chance(t, "protectedelastic", 25) {
 				return GenProtectedElasticScript(t, "C06", o)
 			}
+			if chance(t, "deeptree", 20) {
+				return GenDeepTreeReclaimScript(t, "C06", o)
+			}
 			return GenScript(t, "C06", "victims", o)
 		},
 		Oracles: func() []Oracle { return []Oracle{VictimOracle{}} },
